@@ -4,6 +4,7 @@ import (
 	"encoding/json"
 	"fmt"
 	"math/big"
+	"reflect"
 	"regexp"
 	"sort"
 	"strings"
@@ -194,7 +195,7 @@ func (p *c19) sliceCase(rec *core.Recorder, n int, start int64, length *int64, c
 func (p *c19) str(r *core.Rand) string {
 	if r.P(1, 3) {
 		// random composition
-		parts := []string{"a", "B", "é", "É", " ", "  ", "日", "-", "'", "x", "ß", "Ω", "ω", "1", "\t", "😀"}
+		parts := []string{"a", "B", "é", "É", " ", "  ", "日", "-", "'", "x", "ß", "Ω", "ω", "1", "\t", "😀", "\x00", "\x0b", "\n", "\r", "\u00a0", "\u2003", "\ufeff", "\x00 ", " \x00"}
 		n := r.Range(0, 8)
 		var b strings.Builder
 		for i := 0; i < n; i++ {
@@ -295,6 +296,30 @@ func canonList(l []interface{}) string { b, _ := json.Marshal(l); return string(
 
 func (p *c19) reverse(rec *core.Recorder, r *core.Rand) {
 	rec.Count("law:reverse", 1)
+	if r.P(1, 6) {
+		// strings with bytes that are never part of valid UTF-8 (0xC0, 0xC1, 0xF5-0xFF): each counts as one character, so
+		// reversing keeps the byte length and reversing twice restores the string (compared as raw bytes, not through JSON)
+		parts := []string{"a", "é", "日", "😀", "\xff", "\xfe", "\xc0", "\xf8", " ", "z"}
+		var b strings.Builder
+		for i, n := 0, r.Range(1, 7); i < n; i++ {
+			b.WriteString(parts[r.Intn(len(parts))])
+		}
+		s := b.String()
+		rec.Eval("reverse-bytes", s, true)
+		rec.Count("reverse-on-invalid-utf8", 1)
+		ctx := map[string]interface{}{"v": s}
+		o1, e1, res := c19R("{{ v|reverse }}", ctx)
+		o2, e2, _ := c19R("{{ v|reverse|reverse }}", ctx)
+		cs := map[string]any{"input": fmt.Sprintf("%q", s)}
+		if res.Panicked {
+			rec.Violate("panic", "panic@"+res.Site, "engine panicked: "+res.PanicVal, cs, res.Stack)
+			return
+		}
+		if e1 != nil || e2 != nil || o2 != s || len(o1) != len(s) {
+			p.violate(rec, "reverse", "b:"+s, fmt.Sprintf("reverse is not a length-preserving involution on %q: reverse %q, twice %q (%v %v)", s, o1, o2, e1, e2), cs)
+		}
+		return
+	}
 	if r.Bool() {
 		s := p.str(r)
 		rec.Eval("reverse-string", s, nontrivStr(s))
@@ -398,6 +423,55 @@ func (p *c19) sortLaw(rec *core.Recorder, r *core.Rand) {
 
 func (p *c19) lengthFirstLast(rec *core.Recorder, r *core.Rand) {
 	rec.Count("law:length-first-last", 1)
+	if r.P(1, 5) {
+		// maps: length, first and last against what a for loop over the map observes
+		n := r.Range(0, 5)
+		keys := []string{"b", "a", "z", "10", "9", "é", "k"}
+		var carrier interface{}
+		switch r.Intn(3) {
+		case 0:
+			m := map[string]interface{}{}
+			for i := 0; i < n; i++ {
+				m[keys[r.Intn(len(keys))]] = r.Range(0, 99)
+			}
+			carrier = m
+		case 1:
+			m := map[string]int{}
+			for i := 0; i < n; i++ {
+				m[keys[r.Intn(len(keys))]] = r.Range(0, 99)
+			}
+			carrier = m
+		default:
+			m := map[int]string{}
+			for i := 0; i < n; i++ {
+				m[r.Range(-3, 12)] = keys[r.Intn(len(keys))]
+			}
+			carrier = m
+		}
+		input := fmt.Sprintf("map:%v", carrier)
+		rec.Eval("length-first-last-map", input, reflect.ValueOf(carrier).Len() >= 2)
+		rec.Count("maps-under-first-last", 1)
+		src := "{{ v|length }}|{% set n = 0 %}{% for x in v %}{% set n = n + 1 %}{% endfor %}{{ n }}|{{ v|first|json_encode }}|{% for x in v %}{% if loop.first %}{{ x|json_encode }}{% endif %}{% endfor %}|{{ v|last|json_encode }}|{% for x in v %}{% if loop.last %}{{ x|json_encode }}{% endif %}{% endfor %}"
+		out, err, res := c19R(src, map[string]interface{}{"v": carrier})
+		cs := map[string]any{"input": fmt.Sprintf("%#v", carrier), "template": src}
+		if res.Panicked {
+			rec.Violate("panic", "panic@"+res.Site, "engine panicked: "+res.PanicVal, cs, res.Stack)
+			return
+		}
+		parts := strings.Split(out, "|")
+		if err != nil || len(parts) != 6 {
+			p.violate(rec, "length-first-last", input, fmt.Sprintf("template failed on %s: %v %q", input, err, out), cs)
+			return
+		}
+		if parts[0] != parts[1] || parts[0] != fmt.Sprint(reflect.ValueOf(carrier).Len()) {
+			p.violate(rec, "length-first-last", input, fmt.Sprintf("length disagrees with what a loop observes on %s: length=%s, loop iterations=%s", input, parts[0], parts[1]), cs)
+			return
+		}
+		if parts[0] != "0" && (parts[2] != parts[3] || parts[4] != parts[5]) {
+			p.violate(rec, "length-first-last", input, fmt.Sprintf("first/last disagree with the loop on %s: first=%s loop-first=%s last=%s loop-last=%s", input, parts[2], parts[3], parts[4], parts[5]), cs)
+		}
+		return
+	}
 	var ctxVal interface{}
 	var input string
 	nt := false
@@ -721,11 +795,21 @@ func (p *c19) numbers(rec *core.Recorder, r *core.Rand) {
 		den = 2
 		num = int64(2*r.Range(-300, 300) + 1)
 	}
+	bigInt := r.P(1, 8)
+	if bigInt {
+		// integers beyond 2^53, where float64 no longer holds every integer
+		den = 1
+		num = (int64(1)<<53 + int64(r.Intn(1<<30))*int64(r.Range(1, 500)) + int64(r.Intn(9))) * int64([]int{1, -1}[r.Intn(2)])
+		rec.Count("integers-beyond-2^53", 1)
+	}
 	v := new(big.Rat).SetFrac64(num, den)
 	f, _ := v.Float64()
 	var ctxVal interface{} = f
-	if den == 1 && r.Bool() {
+	if den == 1 && (r.Bool() || bigInt) {
 		ctxVal = int(num)
+		if bigInt && r.Bool() {
+			ctxVal = num // int64
+		}
 	}
 	prec := r.Range(0, 4)
 	method := []string{"common", "ceil", "floor"}[r.Intn(3)]
